@@ -148,6 +148,16 @@ def family_alias(rnd, tier):
                 if e["p"] == [opt["hl"][0]]:
                     e["hlof"] = [opt["hl"][1]]
         out.append(SC("alias-" + name, fs, srcs, dest, r=False, cls="alias"))
+    # the same aliases with a backup mode: the identity test has to come before the backup rename
+    for name, fs0, srcs, dest, opt in cases[:3] + cases[5:7] + cases[9:10]:
+        for mode, pre in (("numbered", []), ("auto", [E("f.~1~", "file", "G2")])):
+            fs = [dict(e) for e in fs0] + pre
+            if "hl" in opt:
+                for e in fs:
+                    if e["p"] == [opt["hl"][1]]: e["h"] = 1
+                for e in fs:
+                    if e["p"] == [opt["hl"][0]]: e["hlof"] = [opt["hl"][1]]
+            out.append(SC("alias-%s-backup-%s" % (name, mode), fs, srcs, dest, r=False, extra=["--backup", mode], cls="alias"))
     # directories onto themselves
     d = tree("dd", {"x": "F1", "e": {"y": "F2"}, "p": ("fifo",), "l": ("link", "x")}) + [E("by", "file", "F6")]
     out.append(SC("alias-dir-parent", d, ["dd"], "dd/..", cls="alias"))
@@ -275,6 +285,16 @@ def family_reject(rnd, tier):
         out.append(SC("rej-multi-nondir-%s" % dn, good + dst, ["g1", "g2"], "d", r=False, cls="reject"))
         out.append(SC("rej-same-%s" % dn, good + dst, ["g1", "d"], "d", cls="reject"))
         out.append(SC("rej-same-target-%s" % dn, good + dst + [E("d/q", "file", "F4")] if dn in ("dir", "populated") else good + dst, ["g2", "d/g1"] if dn in ("dir", "populated") else ["g1"], "g1" if dn not in ("dir", "populated") else "d", r=False, cls="reject"))
+    for mode in ("none", "numbered", "auto"):
+        pre = [E("g1.~3~", "file", "G3")] if mode == "auto" else []
+        out.append(SC("rej-self-dot-%s" % mode, good + pre, ["g1"], "./g1", r=False, extra=["--backup", mode], cls="reject"))
+        out.append(SC("rej-self-dotdot-%s" % mode, good + pre, ["g1"], "gd/../g1", r=False, extra=["--backup", mode], cls="reject"))
+        out.append(SC("rej-self-symlink-%s" % mode, good + pre + [E("lg", "link", "g1")], ["g1"], "lg", r=False, extra=["--backup", mode], cls="reject"))
+        hl = [dict(e) for e in good + pre]
+        for e in hl:
+            if e["p"] == ["g1"]: e["h"] = 1
+        g = E("hg", "file", "F1", h=1); g["hlof"] = ["g1"]
+        out.append(SC("rej-self-hardlink-%s" % mode, hl + [g], ["g1"], "hg", r=False, extra=["--backup", mode], cls="reject"))
     out.append(SC("rej-dir-onto-file", good + [E("d", "file", "G9")], ["gd"], "d", cls="reject"))
     out.append(SC("rej-nosource", good, [], "d", cls="reject"))
     # option-level rejections: the scenario carries extra argv; the model sees them as a rejected invocation via 'forceReject'
